@@ -250,6 +250,9 @@ class RDFLibGraphsAdapter(RDFLibQuadsBaseAdapter):
 
     @override
     def triple(self, terms: Iterable[Any]) -> Quad:
+        if self._graph_id is None:
+            msg = "new graph was not started"
+            raise JellyConformanceError(msg)
         return Quad(*chain(terms, [self._graph_id]))
 
     @override
